@@ -66,7 +66,7 @@ func verifCatEq(a, b, c, d []byte) bool {
 // bytes accepted by the underlying writer followed by the pending buffer always equal the previous
 // such sequence followed by the accepted prefix of p -- nothing torn, duplicated, reordered or lost.
 func VerifC05WriteStep() {
-	S := 1 + verifChoice("S", 3)
+	S := 1 + verifChoice("S", verifParamInt("maxS", 3))
 	w, st, pre := verifWriterState(S)
 	p := verifBytes("p", verifChoice("plen", 2*S+3))
 	nn, err := w.Write(p)
@@ -88,7 +88,7 @@ func VerifC05WriteStep() {
 
 // VerifC05FlushStep: one Flush from an arbitrary valid state.
 func VerifC05FlushStep() {
-	S := 1 + verifChoice("S", 3)
+	S := 1 + verifChoice("S", verifParamInt("maxS", 3))
 	w, st, pre := verifWriterState(S)
 	err := w.Flush()
 	verifAssert(w.n >= 0 && w.n <= S, "fill-in-range")
